@@ -698,6 +698,14 @@ impl Database {
             Default::default(),
         ));
         self.total_size_estimate = self.total_size_estimate.wrapping_add(info.table.len());
+        // As in `merge_all`: the table's version may have moved, so its cached
+        // indexes must be reset or later reads keep serving the pre-merge index.
+        info.column_indexes.update(|_, ti| {
+            Arc::get_mut(ti).unwrap().reset();
+        });
+        info.indexes.update(|_, ti| {
+            Arc::get_mut(ti).unwrap().reset();
+        });
         self.tables.insert(table, info);
         table_changed.added
     }
